@@ -235,3 +235,56 @@ Proof.
   eexists. eexists. eexists. split; [reflexivity|]. split; [vm_compute; reflexivity|]. split; [vm_compute; reflexivity|].
   intros P. apply Permutation_length_2_inv in P. destruct P as [P|P]; inversion P.
 Qed.
+
+(* ------------------------------------------------------------------ non-vacuity at file level *)
+(* a four-line file: comment, subnet 10.0.0.0/8 -> location "ab" in map "m1", SOA without serial, address *)
+Definition fx_net_text : bytes := [49;48;46;48;46;48;46;48;47;56].            (* 10.0.0.0/8 *)
+Definition fx_ip : bytes := [0;0;0;0;0;0;0;0;0;0;255;255;10;0;0;0].
+Definition fx_ip_text : bytes := [49;48;46;48;46;48;46;48].                   (* 10.0.0.0 *)
+Definition fx_ip2 : bytes := [0;0;0;0;0;0;0;0;0;0;255;255;11;0;0;0].
+Definition fx_ip2_text : bytes := [49;49;46;48;46;48;46;48].                  (* 11.0.0.0 *)
+Definition o_fx : toracles :=
+  mkTO (fun _ => false)
+       (fun s => if bytes_eqb s fx_ip_text then Some fx_ip else if bytes_eqb s fx_ip2_text then Some fx_ip2 else None)
+       (fun a => if bytes_eqb a fx_ip then fx_ip_text else if bytes_eqb a fx_ip2 then fx_ip2_text else [])
+       (fun s => if bytes_eqb s fx_net_text then Some ([10;0;0;0], 8, 32) else None)
+       (fun a ones => if bytes_eqb a fx_ip && (ones =? 104) then fx_net_text else [])
+       (fun r => r).
+Definition fx_rearrange (ns : list record) : list record :=
+  match ns with
+  | [] => []
+  | _ => [RRangePoint [109;49] fx_ip 104 false [97;98];
+          RRangePoint [109;49] fx_ip2 0 true [0;0]]
+  end.
+Definition fx_file : list bytes :=
+  [[35;32;99];                                                                (* # c *)
+   [37;97;98;44] ++ fx_net_text ++ [44;109;49];                               (* %ab,10.0.0.0/8,m1 *)
+   [90;101;120;97;109;112;108;101;46;99;111;109;44;97;46;110;115;46;101;120;97;109;112;108;101;46;99;111;109;44;
+    100;110;115;46;101;120;97;109;112;108;101;46;99;111;109;44;44;55;50;48;48]; (* Zexample.com,a.ns.example.com,dns.example.com,,7200 *)
+   [43;119;119;119;46;101;120;97;109;112;108;101;46;99;111;109;44] ++ fx_ip_text ++ [44;51;48;48]]. (* +www.example.com,10.0.0.0,300 *)
+
+Lemma file_example :
+  wf_file o_fx 7 fx_file /\
+  exists out k, preprocess o_fx fx_rearrange 7 fx_file = Ok out /\
+    length out = 4%nat /\ nth 0 out [] <> nth 2 fx_file [] /\
+    compile o_fx fx_rearrange true 7 fx_file = Ok k /\ compile o_fx fx_rearrange true 7 out = Ok k /\
+    length k = 5%nat.
+Proof.
+  split.
+  - unfold wf_file, fx_file. constructor; [|constructor; [|constructor; [|constructor; [|constructor]]]].
+    + left. reflexivity.
+    + right. split; [cbn; lia|]. split; [cbn; lia|]. do 2 eexists.
+      split; [vm_compute; reflexivity|]. split; [vm_compute; reflexivity|]. split; [reflexivity|].
+      split; [vm_compute; reflexivity|]. split; [intros H; exfalso; apply H; reflexivity|]. intros H; discriminate H.
+    + right. split; [cbn; lia|]. split; [cbn; lia|]. do 2 eexists.
+      split; [vm_compute; reflexivity|]. split; [vm_compute; reflexivity|]. split; [reflexivity|].
+      split; [vm_compute; reflexivity|]. split; [reflexivity|]. intros _. vm_compute. reflexivity.
+    + right. split; [cbn; lia|]. split; [cbn; lia|]. do 2 eexists.
+      split; [vm_compute; reflexivity|]. split; [vm_compute; reflexivity|]. split; [reflexivity|].
+      split; [vm_compute; reflexivity|]. split; [reflexivity|]. intros H; discriminate H.
+  - destruct (preprocess o_fx fx_rearrange 7 fx_file) as [out|] eqn:E; [|vm_compute in E; discriminate E].
+    vm_compute in E. inversion E; subst out. clear E.
+    eexists. eexists. split; [reflexivity|]. split; [reflexivity|].
+    split; [vm_compute; intros H; discriminate H|].
+    split; [vm_compute; reflexivity|]. split; [vm_compute; reflexivity|]. reflexivity.
+Qed.
